@@ -170,7 +170,7 @@ def calls_database_TinyFlux : List (String × List String) := [
   ("_generate_updater", ["<raise ValueError>", "ValueError", "all", "callable", "isinstance", "validate_fields", "validate_tags"]),
   ("_generate_updater.perform_update", ["<except ValueError>", "<raise ValueError>", "ValueError", "_", "_.fields.pop", "_.fields.update", "_.tags.pop", "_.tags.update", "_.time.astimezone", "callable", "copy.deepcopy", "isinstance", "validate_fields", "validate_tags"]),
   ("_insert_helper", ["<except Exception>", "<finally>", "<raise TypeError>", "<re-raise>", "TypeError", "_.time.astimezone", "_.time.timestamp", "datetime.now", "isinstance", "self._index.insert", "self._index.invalidate", "self._storage._serialize_point", "self._storage.append", "validate_fields", "validate_tags"]),
-  ("_remove_helper", ["MeasurementQuery", "_", "_.add", "enumerate", "index_is_exact", "len", "self._index.invalidate", "self._index.remove", "self._index.search", "self._index.update", "self._reset_database", "self._storage._deserialize_measurement", "self._storage._deserialize_storage_item", "self._storage._swap_temp_with_primary", "self._storage.append", "set"]),
+  ("_remove_helper", ["<except Exception>", "<re-raise>", "MeasurementQuery", "_", "_.add", "enumerate", "index_is_exact", "len", "self._index.invalidate", "self._index.remove", "self._index.search", "self._index.update", "self._reset_database", "self._storage._deserialize_measurement", "self._storage._deserialize_storage_item", "self._storage._swap_temp_with_primary", "self._storage.append", "set"]),
   ("_reset_database", ["self._index._reset", "self._index.invalidate", "self._measurements.clear", "self._storage.reset"]),
   ("_update_helper", ["<except Exception>", "<re-raise>", "MeasurementQuery", "_", "enumerate", "index_is_exact", "len", "reversed", "self._generate_updater", "self._index.build", "self._index.invalidate", "self._index.search", "self._storage._deserialize_measurement", "self._storage._deserialize_storage_item", "self._storage._serialize_point", "self._storage._swap_temp_with_primary", "self._storage.append", "update_and_record"]),
   ("_update_helper.update_and_record", ["_", "_.append", "copy.deepcopy"])]
